@@ -157,6 +157,40 @@ theorem derivative_spec (n : Nat) (U D : List (List Int)) (props : List (Propens
   rw [derivRow_eq_dense]
   rfl
 
+/-! ### The safe interface's derivative -/
+
+/-- **the safe interface's guard is idle wherever it only leaves out zero terms**: if every reaction that consumes
+species `s` has rate zero while `s` is at zero (mass action does), the guarded row is the plain row. -/
+theorem derivRowSafe_idle (U D : List (List Int)) (rates : List α) (xs : α) (s : Nat)
+    (h : ∀ r, entry U s r + entry D s r ≤ 0 → xs ≤ 0 → rates.getD r 0 = 0) :
+    derivRowSafe U D rates xs s = derivRow U D rates s := by
+  unfold derivRowSafe derivRow
+  have hf : (fun (acc : α) (r : Nat) =>
+      let v := entry U s r + entry D s r
+      if v ≠ 0 then (if v ≤ 0 ∧ xs ≤ 0 then acc else acc + rates.getD r 0 * (v : α)) else acc)
+      = (fun (acc : α) (r : Nat) =>
+      let v := entry U s r + entry D s r
+      if v ≠ 0 then acc + rates.getD r 0 * (v : α) else acc) := by
+    funext acc r
+    by_cases hv : entry U s r + entry D s r = 0
+    · simp [hv]
+    · by_cases hg : entry U s r + entry D s r ≤ 0 ∧ xs ≤ 0
+      · have h0 := h r hg.1 hg.2
+        rw [List.getD_eq_getElem?_getD] at h0
+        simp [hv, hg, h0]
+      · simp only [ne_eq, hv, not_false_eq_true, if_true, hg, if_false]
+  rw [hf]
+
+/-- at a strictly positive count nothing is left out. -/
+theorem derivRowSafe_pos (U D : List (List Int)) (rates : List α) (xs : α) (s : Nat) (hx : 0 < xs) :
+    derivRowSafe U D rates xs s = derivRow U D rates s :=
+  derivRowSafe_idle U D rates xs s (fun _ _ hle => absurd hx (not_lt.mpr hle))
+
+/-- **the guard does leave something out otherwise**: one consuming reaction with a non-zero rate at a species at zero
+(a constant-rate degradation) — the safe row is 0, the plain row is the (negative) rate. -/
+example : derivRowSafe [[-1]] [[0]] [(3 : ℚ)] 0 0 = 0 ∧ derivRow [[-1]] [[0]] [(3 : ℚ)] 0 = -3 := by
+  constructor <;> norm_num [derivRowSafe, derivRow, entry]
+
 /-! ### Parameters without a value -/
 
 /-- `Model.check_parameters`: initialisation fails iff some parameter still holds the "unset"
